@@ -13,7 +13,7 @@ TECHNIQUE = ('property-based testing: generated open/close/push/limit-change his
 RULE = ('cases: histories (8..50 steps) of stream openings in both directions, closings by END_STREAM in each '
         'direction and by RST_STREAM from each side, pushes and responses on promised streams, '
         'MAX_CONCURRENT_STREAMS changes by the peer (applied at once) and locally (applied at the ACK, injected at a '
-        'later step) with limits in {0,1,2,3,100}, and open_outbound_streams / open_inbound_streams queries (which '
+        'later step) with limits in {0,1,2,3,100}, a local limit of 1, 2 or 150 installed as initial settings before the connection starts, final DATA frames refused for their size, and open_outbound_streams / open_inbound_streams queries (which '
         'also trigger clean-up); non-trivial = a count reached its limit and later dropped again; distinct by trace')
 ASSUMPTIONS = ['local SETTINGS frames in this check change only MAX_CONCURRENT_STREAMS after the handshake ACK '
                '(C11 covers acknowledgement matching)']
@@ -26,8 +26,12 @@ def run_case(data):
     ch = Chooser(data)
     r = Result()
     client = ch.bool()
-    w = World(client, r, 'C10')
+    initial = ch.pick([None, None, None, {wire.S_MAX_CONCURRENT_STREAMS: 1}, {wire.S_MAX_CONCURRENT_STREAMS: 2},
+                       {wire.S_MAX_CONCURRENT_STREAMS: 150}])
+    w = World(client, r, 'C10', local_initial=initial)
     m = w.m
+    if initial:
+        r.labels.add('local-limit-from-initial-settings')
     pending_local = []
     hit_limit = dropped_after = False
     r.step('role', 'client' if client else 'server')
@@ -42,7 +46,7 @@ def run_case(data):
         usable = sorted(s for s in m.streams if s not in w.tainted)
         op = ch.weighted([(8, 'open-local'), (8, 'open-peer'), (4, 'local-end'), (4, 'peer-end'), (3, 'respond'),
                           (2, 'peer-limit'), (2, 'local-limit'), (2, 'local-ack'), (3, 'query'), (2, 'wu-overflow'),
-                          (3, 'late-headers'), (2, 'info'), (2, 'refused-open')])
+                          (3, 'late-headers'), (2, 'info'), (2, 'refused-open'), (2, 'oversize-end')])
         if op == 'open-local':
             if client:
                 w.send_headers(w.next_local_id(), 'final', ch.chance(48))
@@ -118,6 +122,30 @@ def run_case(data):
             if o.out:
                 w.violate('refused-open-emitted', o.out.hex()[:40])
             r.labels.add('refused-open')
+        elif op == 'oversize-end':
+            # a final DATA frame that is refused for its size (larger than the peer's MAX_FRAME_SIZE or than the
+            # window) ends nothing: the stream still counts
+            cands = [s for s in usable if m.get(s).can_send() and m.get(s).s_final and
+                     m.send_data_verdict(s, True)[0] == M.PERMIT]
+            if not cands:
+                continue
+            sid = ch.pick(cands)
+            n = ch.pick([16385, 20000, 65535, 70000])
+            o = w.s.call('send_data', sid, b'x' * n, end_stream=True, pad_length=ch.pick([None, None, 10]))
+            r.step('oversize final DATA', sid, n, o.brief())
+            if o.ok:
+                w.violate('oversize-data-accepted', '%d bytes' % n)
+                break
+            if o.exc_name not in ('FrameTooLargeError', 'FlowControlError'):
+                w.violate('oversize-data-refused-with:%s' % o.exc_name, repr(o.exc)[:100])
+                break
+            if o.out:
+                w.violate('refused-data-emitted', o.out.hex()[:40])
+            out_n, in_n = w.s.c.open_outbound_streams, w.s.c.open_inbound_streams
+            if (out_n, in_n) != (m.open_count(True), m.open_count(False)):
+                w.violate('refused-final-data-changed-the-count', 'library %d/%d model %d/%d' %
+                          (out_n, in_n, m.open_count(True), m.open_count(False)))
+            r.labels.add('oversize-final-data-refused')
         elif op == 'late-headers':
             # HEADERS the peer sent before it saw our reset of that stream: no new stream, so no limit applies
             cands = [s for s in usable if m.get(s).state == M.CLOSED and m.get(s).closed_by == 'send-rst' and
